@@ -33,8 +33,10 @@
      Tick          one round of the discovery goroutine: ListShards after
                    LastAssigned, AddSplits, AvailableSplits, hook, TrackAssigned
                    (the splitsDidFinish wake-up runs the same tail without the
-                   listing; within one incarnation a listing never changes which
-                   shards are known, see GUIDE of the check)
+                   listing; within one incarnation every listing returns all
+                   ids above LastAssigned, so which shards are known never
+                   depends on whether the wake-up ran before the next round -
+                   it is folded into Tick)
      Progress(s) / RunnerRead(r)   a runner advances a cursor
      Finish(s)     the runner read a closed shard to its end:
                    NotifySplitsFinished -> RemoveSplits
@@ -96,6 +98,7 @@ CONSTANTS Kind,        \* "kinesis" | "embedded" | "httpapi"
           LogOn,       \* FALSE: no history (exhaustive runs)
           MaxStarts,   \* (re)starts per behaviour (generation only)
           ActOn,       \* TRUE: `act` holds the last action (counterexample export from exhaustive runs)
+          MaxDepth,    \* CONSTRAINT DepthOK: exhaustive search to this depth only (counterexample export)
           Pre_LastRegress, Pre_ForgetWithheld, Dev_StateAtCompletion
 
 VARIABLES shards,      \* the stream: <<[lo, hi, par, closed], ...>>
@@ -205,7 +208,7 @@ Merge(s, t) ==
 \* (re)start of the job's splitter from the latest completed checkpoint
 Start(r) ==
   /\ r \in Runners
-  /\ LogOn => nst < MaxStarts
+  /\ LogOn => nst < MaxStarts /\ (up => K.has)  \* generation: restarts only from a completed checkpoint
   /\ nst' = IF LogOn THEN nst + 1 ELSE nst
   /\ LET kin == Kind = "kinesis"
          d   == DA(IF kin THEN K.known ELSE {}, {}, IF kin THEN K.last ELSE 0)
@@ -327,6 +330,8 @@ TypeOK == /\ N <= MaxShards /\ last \in 0..MaxShards /\ R \in Runners
 
 \* finished-at-the-cut shards are never captured with a cursor
 CutOK == K.has => \A s \in K.fin : K.cur[s] < 0
+
+DepthOK == TLCGet("level") <= MaxDepth
 
 Dump == (LogOn /\ Len(hist) >= MaxLen) => PrintT(<<"BEHAVIOUR", ToJson(hist)>>)
 
